@@ -145,6 +145,11 @@ def check(case, ctx):
         # the extension decides the format unless `fmt` is given; an explicit fmt overrides any extension
         ext = [".v", ".v", ".vg", ".txt", ".bench", ""][len(cd["nodes"]) % 6]
         path = os.path.join(ctx.scratch, f"{c.name}{ext}")
+        if len(cd["edges"]) % 2:
+            import pathlib
+
+            path = pathlib.Path(path)  # "str or pathlib.Path"
+            ctx.count("file_path_as_pathlib")
         ok, r = ctx.call(cg.to_file, c, path, behavioral=beh)
         c2, text = r, ""
         if ok and ext == ".v":
